@@ -1,0 +1,136 @@
+//go:build verif
+
+// Contracts for the deductive verification in /verif (govc). This file contains
+// comments only; it is compiled only with -tags verif and declares nothing.
+
+package asn1
+
+// ---------------------------------------------------------------- asn1.go (leaf decoders)
+
+// BOOLEAN (X.690 8.2, 11.1): exactly one content octet, 0x00 or 0xff - in both parsing modes.
+//@ func parseBool
+//@   ensures err == nil <==> (len(bytes) == 1 && (bytes[0] == 0 || bytes[0] == 0xff))
+//@   ensures err == nil ==> (ret <==> bytes[0] == 0xff)
+//@   terminates
+
+// INTEGER contents (X.690 8.3.2). Strict mode: non-empty and minimal. Permissive mode
+// drops only the minimality test (property C20: strict success implies permissive success).
+//@ func checkInteger
+//@   ensures !AllowPermissiveParsing ==> (result == nil <==> spec.int_minimal(seq(bytes), len(bytes)))
+//@   ensures AllowPermissiveParsing ==> (result == nil <==> len(bytes) >= 1)
+//@   terminates
+
+//@ func parseInt64
+//@   loop 1 invariant 0 <= bytesRead && bytesRead <= len(bytes) && len(bytes) <= 8 && ret == int64(spec.be64(seq(bytes), bytesRead))
+//@   loop 1 lemma spec.be64_step(seq(bytes), bytesRead)
+//@   ensures !AllowPermissiveParsing ==> (err == nil <==> (spec.int_minimal(seq(bytes), len(bytes)) && len(bytes) <= 8))
+//@   ensures AllowPermissiveParsing ==> (err == nil <==> (1 <= len(bytes) && len(bytes) <= 8))
+//@   ensures err == nil ==> ret == spec.be_signed(seq(bytes), len(bytes))
+//@   lemma_ret spec.int_canon(seq(bytes), len(bytes))
+//@   ensures [canonical] !AllowPermissiveParsing && err == nil ==> len(bytes) == spec.der_int_len(ret) && forall(j, 0, len(bytes), bytes[j] == spec.der_int_byte(ret, j))
+//@   terminates
+
+//@ func parseInt32
+//@   ensures !AllowPermissiveParsing && result1 == nil ==> spec.int_minimal(seq(bytes), len(bytes)) && len(bytes) <= 4
+//@   ensures result1 == nil ==> 1 <= len(bytes) && len(bytes) <= 8 && int64(result0) == spec.be_signed(seq(bytes), len(bytes))
+//@   lemma_ret spec.int_canon(seq(bytes), len(bytes))
+//@   ensures [canonical] !AllowPermissiveParsing && result1 == nil ==> len(bytes) == spec.der_int_len(int64(result0)) && forall(j, 0, len(bytes), bytes[j] == spec.der_int_byte(int64(result0), j))
+//@   terminates
+
+//@ global bigOne != nil
+
+//@ func parseBigInt
+//@   loop 1 invariant len(notBytes) == len(bytes) && fresh(notBytes)
+//@   ensures !AllowPermissiveParsing ==> (result1 == nil <==> spec.int_minimal(seq(bytes), len(bytes)))
+//@   ensures result1 == nil ==> result0 != nil
+//@   alloc <= len(bytes)
+//@   terminates
+
+// BitString accessors: a BitString value is consistent when its bit length fits its bytes.
+//@ func (BitString).At
+//@   requires 0 <= b.BitLength && b.BitLength <= 8*len(b.Bytes) && len(b.Bytes) <= 1<<59
+//@   ensures  result == 0 || result == 1
+//@   terminates
+
+//@ func (BitString).RightAlign
+//@   requires 0 <= b.BitLength
+//@   loop 1 invariant 1 <= i && i <= len(b.Bytes) && len(a) == len(b.Bytes) && fresh(a)
+//@   loop 1 decreases len(b.Bytes) - i
+//@   ensures  len(result) == len(b.Bytes)
+//@   alloc <= len(b.Bytes)
+//@   terminates
+
+// BIT STRING (X.690 8.6, 11.2): initial octet 0..7, zero for an empty string, unused bits zero.
+//@ func parseBitString
+//@   ensures err == nil <==> (len(bytes) >= 1 && bytes[0] <= 7 && (len(bytes) == 1 ==> bytes[0] == 0) && bytes[len(bytes)-1] & (1<<bytes[0] - 1) == 0)
+//@   ensures err == nil ==> ret.BitLength == (len(bytes)-1)*8 - int(bytes[0]) && same(ret.Bytes, bytes[1:])
+//@   terminates
+
+//@ func (ObjectIdentifier).Equal
+//@   loop 1 invariant 0 <= i && i <= len(oi) && len(oi) == len(other) && forall(k, 0, i, oi[k] == other[k])
+//@   ensures result <==> (len(oi) == len(other) && forall(k, 0, len(oi), oi[k] == other[k]))
+//@   terminates
+
+// Base-128 integer (X.690 8.19.2): at most 5 octets, no leading 0x80, value below 2^31.
+//@ func parseBase128Int
+//@   requires 0 <= initOffset
+//@   loop 1 invariant 0 <= shifted && shifted <= 5 && offset == initOffset + shifted && (offset <= len(bytes) || shifted == 0)
+//@   loop 1 invariant spec.b128_end(seq(bytes[initOffset:]), shifted, 5) == -1 && ret64 == spec.b128_val(seq(bytes[initOffset:]), shifted)
+//@   loop 1 invariant shifted >= 1 ==> bytes[initOffset] != 0x80
+//@   loop 1 lemma spec.b128_step(seq(bytes[initOffset:]), shifted) && spec.b128_end_step(seq(bytes[initOffset:]), shifted, len(bytes) - initOffset, 5)
+//@   ensures err == nil ==> initOffset < len(bytes) && bytes[initOffset] != 0x80
+//@   ensures err == nil ==> spec.b128_end(seq(bytes[initOffset:]), len(bytes) - initOffset, 5) >= 0 && offset == initOffset + spec.b128_end(seq(bytes[initOffset:]), len(bytes) - initOffset, 5) + 1
+//@   ensures err == nil ==> 0 <= ret && ret <= 0x7fffffff && ret == spec.b128_val(seq(bytes[initOffset:]), offset - initOffset)
+//@   ensures err != nil ==> initOffset <= offset && (offset <= len(bytes) || offset == initOffset)
+//@   terminates
+
+//@ func parseObjectIdentifier
+//@   loop 1 invariant 2 <= i && i <= len(s) && 1 <= offset && offset <= len(bytes) && i + (len(bytes) - offset) <= len(s) && len(s) == len(bytes) + 1 && s != nil && fresh(s)
+//@   loop 1 decreases len(bytes) - offset
+//@   ensures err == nil ==> len(s) >= 2 && len(s) <= len(bytes) + 1 && len(bytes) >= 1
+//@   alloc <= len(bytes) + 1
+//@   terminates
+
+//@ func isNumeric
+//@   ensures result <==> ((0x30 <= b && b <= 0x39) || b == 0x20)
+//@   terminates
+
+//@ func isPrintable
+//@   terminates
+
+//@ func parseNumericString
+//@   loop 1 invariant forall(k, 0, it, (0x30 <= bytes[k] && bytes[k] <= 0x39) || bytes[k] == 0x20)
+//@   ensures !AllowPermissiveParsing && err == nil ==> forall(k, 0, len(bytes), (0x30 <= bytes[k] && bytes[k] <= 0x39) || bytes[k] == 0x20)
+//@   ensures AllowPermissiveParsing ==> err == nil
+//@   ensures err == nil ==> ret == string(bytes)
+//@   terminates
+
+//@ func parsePrintableString
+//@   ensures AllowPermissiveParsing ==> err == nil
+//@   ensures err == nil ==> ret == string(bytes)
+//@   terminates
+
+//@ func parseIA5String
+//@   loop 1 invariant forall(k, 0, it, bytes[k] < 0x80)
+//@   ensures !AllowPermissiveParsing && err == nil ==> forall(k, 0, len(bytes), bytes[k] < 0x80)
+//@   ensures AllowPermissiveParsing ==> err == nil
+//@   ensures err == nil ==> ret == string(bytes)
+//@   terminates
+
+//@ func parseT61String
+//@   ensures err == nil && ret == string(bytes)
+//@   terminates
+
+//@ func parseUTF8String
+//@   ensures AllowPermissiveParsing ==> err == nil
+//@   ensures err == nil ==> ret == string(bytes)
+//@   terminates
+
+//@ func parseBMPString
+//@   loop 1 invariant len(bmpString) % 2 == 0 && fresh(s)
+//@   loop 1 decreases len(bmpString)
+//@   terminates
+
+//@ func invalidLength
+//@   ensures (0 <= offset && 0 <= length) ==> (result <==> (length > 0x7fffffffffffffff - offset || offset + length > sliceLength))
+//@   terminates
